@@ -119,5 +119,5 @@ def oracle(case, stats):
 
 PARTS = [
     Part("cofactors", strategy=lambda: gen_linear.linear_problem(), oracle=oracle,
-         nontrivial=lambda c: nontrivial(c) or c["n"] >= 4, n={"quick": 1200, "thorough": 40000}),
+         nontrivial=lambda c: nontrivial(c) or c["n"] >= 4, n={"quick": 4000, "thorough": 40000}),
 ]
